@@ -31,7 +31,7 @@ ENTRIES = {'single': ['send', 'call', '__call__', 'proxy'], 'notification': ['se
            'batch': ['send', 'batch.call', 'batch.proxy()', 'batch.proxy.call']}
 
 
-TRACER_STYLES = ['full', 'full', 'super', 'partial', 'logging-first']
+TRACER_STYLES = ['full', 'full', 'super', 'partial', 'logging-first', 'instance-hooks']
 
 
 def strategy_for(n: int) -> Dict[str, Any]:
@@ -47,7 +47,7 @@ class C19(Check):
         "cases: per-attempt outcome words over {response ok, response with listed / unlisted error code, listed / unlisted transport exception, "
         "body that is not JSON, body that is not a response (object / scalar), identity mismatch, BaseException (harness BaseException subclass; "
         "asyncio.CancelledError on the async side)} - all words of length n+1 for retry strategies of n = 0..2 attempts (enumerated, both tiers; "
-        "n = 3 in thorough) x 0..3 tracers (overriding all three hooks; overriding them and calling the base class; overriding begin / end only; behind the library's LoggingTracer) x single / batch / notification x entry point {send with a hand-built request, call, __call__, proxy attribute, notify, batch.send, batch.add().call(), batch.proxy...(), batch.proxy....call()} x caller-supplied vs default trace context x request made normally / from inside an except block of the caller x sync / async (rotating); "
+        "n = 3 in thorough) x 0..3 tracers (overriding all three hooks; overriding them and calling the base class; overriding begin / end only; behind the library's LoggingTracer; plain Tracer() objects with hooks attached to the instance) x single / batch / notification x entry point {send with a hand-built request, call, __call__, proxy attribute, notify, batch.send, batch.add().call(), batch.proxy...(), batch.proxy....call()} x caller-supplied vs default trace context x request made normally / from inside an except block of the caller x sync / async (rotating); "
         "plus Hypothesis-drawn configurations. Oracle: the event log is, per attempt, begin by every tracer in configuration order, then "
         "exactly one completion by every tracer in order - end with the returned response object (None for notifications) or error with "
         "the raised exception (identity) - begin and completion of one attempt carry the same context object (the caller's when supplied, "
@@ -63,7 +63,7 @@ class C19(Check):
                         'kind/notification', 'client/sync', 'client/async', 'attempts>=2', 'outcome/base-exc', 'outcome/identity',
                         'outcome/not-json', 'outcome/not-response', 'entry/send', 'entry/call', 'entry/proxy', 'entry/notify',
                         'entry/batch.call', 'entry/batch.proxy()', 'entry/batch.proxy.call', 'caller/inside-except-block',
-                        'tracer-style/super', 'tracer-style/partial', 'tracer-style/logging-first']
+                        'tracer-style/super', 'tracer-style/partial', 'tracer-style/logging-first', 'tracer-style/instance-hooks']
 
     def _words(self, maxn: int, shard: int = 0, nshards: int = 1):
         i = 0
